@@ -28,6 +28,7 @@ STRENGTHENED = {
  "C10-m14": "missed at first: reversed ranges (start > end) were not judged at all because the statement does not say whether they are an error or an empty exchange; they are still not judged for that, but must not panic and must not modify either genome",
  "C12-m14": "missed at first: generators were only used as constructed; the public configuration fields (BoolGenerator::true_probability here; the size and element generator of a collection generator in C18) are now also reassigned after construction and after earlier samples, and what is drawn must follow the value the field has at that moment",
  "C04-m16": "missed at first: C04 drove the Stack type only; insertion through the state-level helpers (HasStack::with_push / with_replace, PushOnto::push_onto / replace_on, StackPush::with_stack_push) is now driven on states whose maximum was lowered after filling: a successful insertion must leave the stack within its current maximum with exactly the expected contents",
+ "C19-m15": "missed at first: the builder was only given materialised value lists; it is now also given exact-size iterators that merely announce up to usize::MAX items (repeat_n, a mapped range), onto empty and already loaded stacks, bounded and unbounded - an overflow error from both, never a panic or an attempt to reserve what was announced (C04 had this for push_many / try_extend since round 5)",
  "C15-m10": "missed at first: copies were never made through clone_from; EcIndividual and TestResults are now also copied with clone_from and Vec::clone_from (overwriting existing elements) and must equal their source",
  "C16-m9": "missed at first, as a harness build failure: the change adds Send + Sync bounds to Map's Vec impl, which C14's Rc-based probes do not satisfy, and all ec monitors lived in one binary. Every property now has its own binary, and C16's registry maps an operator over vectors of up to 2049 genomes",
  "C17-m10": "missed at first: the member errors used behind DynWeighted had no cause chain; a member whose error has a two-level source chain is now used and the whole chain must be reachable through source() from what the list reports",
